@@ -18,7 +18,7 @@ import os, sys, json, subprocess, hashlib
 sys.path.insert(0, os.path.join(os.path.dirname(os.path.abspath(__file__)), '..'))
 from vlib import cbuild
 
-INFRA = {'CompoundParser', 'GetCompoundDataNISTByName', 'xrl_set_error_literal', 'FreeCompoundData', 'FreeCompoundDataNIST'}
+INFRA = {'CompoundParser', 'GetCompoundDataNISTByName', 'xrl_set_error_literal', 'xrl_propagate_error', 'FreeCompoundData', 'FreeCompoundDataNIST'}
 
 def ast_of(src, bdir, repo):
     fl = cbuild.cflags(repo, bdir)
